@@ -196,6 +196,13 @@ def run_unit(unit, tier, keep=False, verbose=False):
             rc, out, _ = _run(cmd, work, 600, os.path.join(work, 'gi.log'))
             if rc != 0:
                 raise Undecided('goto-instrument failed: ' + _tail(os.path.join(work, 'gi.log')))
+            if nloops:
+                rc2, out2, _ = _run(['goto-instrument', '--show-loops', b_gb], work, 120, os.path.join(work, 'loops.log'))
+                left = re.findall(r'^Loop ([A-Za-z0-9_$]+)\.\d+:', (out2 or b'').decode('utf-8', 'replace'), flags=re.M)
+                declared = set(f for t in unit['loops'].values() for f in t)
+                bad = [l for l in left if l in declared or l.replace('_wrapped_for_contract_checking', '') in declared]
+                if bad:
+                    raise Undecided('loop contract not applied: loops remain in %s after instrumentation' % sorted(set(bad)))
         # 3. solve
         cmd = ['cbmc', '--json-ui', '--trace', '--trace-hex', '--drop-unused-functions'] + cbmc_flags(unit) + [b_gb]
         res['cmd'] = ' '.join(['goto-cc ... --function', entry, '&&', 'goto-instrument --dfcc', entry,
@@ -237,7 +244,8 @@ def run_unit(unit, tier, keep=False, verbose=False):
                     raise Undecided('vacuity canary not reachable (status %s): contradictory precondition?' % r['status'])
                 continue
             res['obligations'] += 1
-            if 'loop invariant' in desc or 'loop variant' in desc or 'decreases' in desc or 'loop_invariant' in pname:
+            if 'loop invariant' in desc or 'loop variant' in desc or 'decreases' in desc or 'loop_invariant' in pname \
+                    or '_wrapped_for_contract_checking.' in pname:  # for(;;) loops lose their source location
                 loop_obl += 1
             if r['status'] == 'SUCCESS':
                 res['discharged'] += 1
